@@ -167,10 +167,7 @@ def run(ck: Check):
             "dict_scalar_collisions": sum(1 for o, v in cases if o and v and any(
                 k in o and isinstance(o.get(k), dict) != isinstance(v[k], dict) for k in v)),
         },
-        "partial_clauses": ["the equality between the heap-level function (translated) and the pure merge is "
-                            "evaluated per case inside Coq (vm_compute), not yet proved for all inputs; "
-                            "C17_pure is proved of the translated definition, C17_keys/values/none/wf of the "
-                            "pure merge"],
+        "partial_clauses": [],
     })
     if ck.tier == "thorough":
         ck.coqchk()
